@@ -907,7 +907,64 @@ fn gen(seed: u64, size: &str, path: &str) {
         }
         execs.push(ex);
     }
+    gen_extremes(&mut g, size == "thorough", &mut execs);
     write_stimuli(path, &execs);
+}
+
+/// Sources holding the extreme samples of the format (most negative, most positive, equilibrium and
+/// its neighbours) through every adaptor whose result stays representable on them: the boundary of
+/// "every content of the source signals".
+fn gen_extremes(g: &mut Gen, thorough: bool, execs: &mut Vec<Vec<Value>>) {
+    let x0 = json!({"x": 0});
+    for &fmt in &["i16", "u8", "f64"] {
+        let h = half(fmt).max(64.0);
+        let sf = signed_of(fmt);
+        let ff = float_of(fmt);
+        let hs = half(sf).max(64.0);
+        for ch in 1..=(if thorough { 3 } else { 2 }) {
+            g.ch = ch;
+            // amplitudes: MIN, MAX, 0, +-1 LSB, and a mid value; rotated over the channels
+            let amps = [-1.0, 1.0 - 1.0 / h, 0.0, 1.0 / h, -1.0 / h, -0.5, 0.25];
+            let mk_src = |rot: usize| -> Value {
+                let xs: Vec<Value> = (0..amps.len())
+                    .map(|i| Value::Array((0..ch).map(|c| enc(fmt, amps[(i + c * rot) % amps.len()])).collect()))
+                    .collect();
+                json!({"fmt": fmt, "kind": "frames", "xs": xs})
+            };
+            let leaf = json!({"k": "src", "j": 1});
+            let mut terms: Vec<Value> = vec![
+                leaf.clone(),
+                json!({"k": "map", "f": "id", "a": leaf.clone()}),
+                json!({"k": "map", "f": "rev", "a": leaf.clone()}),
+                json!({"k": "inspect", "a": leaf.clone()}),
+                json!({"k": "delay", "n": 2, "a": leaf.clone()}),
+                json!({"k": "offset", "o": enc(sf, 0.0), "a": leaf.clone()}),
+                json!({"k": "scale", "g": enc(ff, 1.0), "a": leaf.clone()}),
+                json!({"k": "scale", "g": enc(ff, 0.5), "a": leaf.clone()}),
+                json!({"k": "scale", "g": enc(ff, 0.0), "a": leaf.clone()}),
+                json!({"k": "zipmap", "f": "first", "a": leaf.clone(), "b": json!({"k": "src", "j": 2})}),
+                json!({"k": "zipmap", "f": "second", "a": leaf.clone(), "b": json!({"k": "src", "j": 2})}),
+                json!({"k": "zipmap", "f": "interleave", "a": leaf.clone(), "b": json!({"k": "src", "j": 2})}),
+            ];
+            for th in [0.0, 1.0 / hs, 0.25, 0.5, 1.0 - 1.0 / hs] {
+                terms.push(json!({"k": "clip", "th": enc(sf, th), "a": leaf.clone()}));
+            }
+            let os: Vec<Value> = (0..ch).map(|_| enc(sf, 0.0)).collect();
+            terms.push(json!({"k": "offsetpc", "os": os, "a": leaf.clone()}));
+            let gs: Vec<Value> = (0..ch).map(|c| enc(ff, if c % 2 == 0 { 1.0 } else { 0.5 })).collect();
+            terms.push(json!({"k": "scalepc", "gs": gs, "a": leaf.clone()}));
+            for term in terms {
+                let srcs = vec![mk_src(1), mk_src(2)];
+                let mut ex = vec![json!({"ev": "reset", "comp": "signal",
+                                         "cfg": {"ch": ch, "fmt": fmt, "srcs": srcs, "term": term}})];
+                for _ in 0..(amps.len() + 3) {
+                    ex.push(json!({"ev": "next", "a": x0}));
+                }
+                ex.push(json!({"ev": "is_exhausted", "a": x0}));
+                execs.push(ex);
+            }
+        }
+    }
 }
 
 fn main() {
